@@ -329,24 +329,27 @@ WrappedPayload(tag, p) ==
     [] OTHER -> p.j \in {"null", "bool", "int", "float", "str"}
 EveryNestedWrapped(x, e) == (e # RejectW /\ ~IsPrimitive(x)) => WrappedEnv(e)
 
-\* quantified forms over the whole domain (what TLC checks state by state below)
-RoundTripAll          == \A x \in Val(D) : RoundTrip(x, Result(x)) \/ KnownNonStrKey(x)
-LookAlikeSafeAll      == \A x \in Val(D) : LookAlikeSafe(x, Result(x)) \/ KnownNonStrKey(x)
-NoSilentAlterationAll == \A x \in Val(D) : NoSilentAlteration(x, Result(x)) \/ KnownNonStrKey(x)
+\* quantified forms over the domain of depth d (what TLC checks state by state below, with d = D;
+\* they take a parameter so that TLC does not pre-evaluate them as constants)
+RoundTripAll(d)          == \A x \in Val(d) : RoundTrip(x, Result(x)) \/ KnownNonStrKey(x)
+LookAlikeSafeAll(d)      == \A x \in Val(d) : LookAlikeSafe(x, Result(x)) \/ KnownNonStrKey(x)
+NoSilentAlterationAll(d) == \A x \in Val(d) : NoSilentAlteration(x, Result(x)) \/ KnownNonStrKey(x)
 
 -----------------------------------------------------------------------------
 (* TLC: one state per value.  InitV enumerates exactly Val(D) = Val(D-1) \cup containers over    *)
 (* Val(D-1), written with \E so that TLC streams the states instead of building and sorting the *)
 (* whole set (checks/c15.py compares the state count with the closed formula for |Val(D)|).     *)
+\* constant-level, so TLC evaluates them once
+SD1     == IF D = 0 THEN {} ELSE Val(D - 1)
+ItemsD1 == Items(SD1)
 InitV ==
   IF D = 0 THEN v \in Val(0)
-  ELSE LET S == Val(D - 1) IN
-       \/ v \in S
-       \/ \E m \in 0..MaxW : \E s \in [1..m -> S] : v = [k |-> "list", c |-> s]
-       \/ \E m \in 0..MaxW : \E s \in [1..m -> S] : v = [k |-> "tuple", c |-> s]
-       \/ \E ks \in KeySeqs : \E vs \in [1..Len(ks) -> S] :
+  ELSE \/ v \in SD1
+       \/ \E m \in 0..MaxW : \E s \in [1..m -> SD1] : v = [k |-> "list", c |-> s]
+       \/ \E m \in 0..MaxW : \E s \in [1..m -> SD1] : v = [k |-> "tuple", c |-> s]
+       \/ \E ks \in KeySeqs : \E vs \in [1..Len(ks) -> SD1] :
              v = [k |-> "dict", e |-> [i \in 1..Len(ks) |-> [key |-> ks[i], val |-> vs[i]]]]
-       \/ \E m \in 0..MaxB : \E s \in [1..m -> Items(S)] : v = [k |-> "batch", c |-> s, cr |-> "ALL_COMPLETED"]
+       \/ \E m \in 0..MaxB : \E s \in [1..m -> ItemsD1] : v = [k |-> "batch", c |-> s, cr |-> "ALL_COMPLETED"]
 
 Init == /\ InitV
         /\ enc = Encode(v)
